@@ -1157,6 +1157,13 @@ impl<'a, const HAS_CR: bool> Parser<'a, HAS_CR> {
                 }
                 // Line ended without finding `: `
                 b if Self::is_break(b) => return false,
+                // An alias is a complete node, so a comment can follow it, and
+                // a `: ` inside that comment (`- *x # c: d`) is not a value
+                // indicator. (After a plain scalar the mapping path is still
+                // taken, and `parse_unquoted_key` rejects the comment there: #410.)
+                b'#' if self.peek() == Some(b'*') && matches!(self.input[i - 1], b' ' | b'\t') => {
+                    return false;
+                }
                 // Note: " and ' in the middle of a key are allowed (e.g., bla"keks: foo)
                 // Continue scanning past them.
                 _ => i += 1,
@@ -5917,6 +5924,25 @@ mod tests {
         let yaml = b"# This is a comment\nname: Alice";
         let result = build_semi_index(yaml);
         assert!(result.is_ok());
+    }
+
+    /// A `: ` inside the comment that follows an alias is not a value
+    /// indicator, so it must not turn the alias into a mapping key.
+    #[test]
+    fn mapping_entry_lookahead_stops_at_a_comment_after_an_alias() {
+        for (yaml, expected) in [
+            (&b"- &x 1\n- *x # c: d\n"[..], "[1,1]"),
+            (b"a: &x 1\nb: *x # c: d\n", "{\"a\":1,\"b\":1}"),
+            (b"- a#b: c\n", "[{\"a#b\":\"c\"}]"),
+        ] {
+            let index = crate::yaml::YamlIndex::build(yaml).expect("should parse");
+            assert_eq!(
+                index.root(yaml).to_json_document(),
+                expected,
+                "input: {:?}",
+                core::str::from_utf8(yaml)
+            );
+        }
     }
 
     #[test]
